@@ -170,6 +170,22 @@ CLAIMED = {
         "model's own tie to the main engine (engine checks); React hints, imports and localStorage helpers of the fork are not exercised.",
    technique="fork diff (ast) + differential of both real engines + vm_compute comparison of the fork with the proved engine model; partial Coq lemmas",
    design_ref="DESIGN.md §6 C19"),
+ "C16": dict(
+   category="proof",
+   text="Split, and said so in the evidence (level_split).  PROOF for the aliasing clauses: coq/Props/C16.v (closed) over Codec/Cells.v, a "
+        "model of values whose mutable containers carry a cell identity (same identity = same Python object; an in-place mutation changes "
+        "every occurrence): a copy into fresh cells - what save_state, load_state and the undo snapshot build - uses only identities above "
+        "every identity of the running game, denotes the same value, is unchanged by any later in-place mutation of the game, and editing it "
+        "does not change the game.  Tied to the code by walking the REAL object graphs with id(): save data, loaded state and undo snapshots "
+        "must share no list/dict/set/object with the live variables, hooks, join progress or displayed output; then every live container "
+        "(resp. every container of the document) is mutated in place and the other side must stay equal.  DIFFERENTIAL ONLY (a theorem "
+        "about Gallina functions cannot state them - they are true of every function): compile twice; compile/play/save the same stories in "
+        "fresh interpreters under PYTHONHASHSEED 0, 1, 12345; two engines interleaved on ONE story object against solo runs; the story "
+        "object deep-compared before/after.",
+   note="Trusted: Coq kernel; the cell model's reading of 'copy' (fresh) as what json round trip / comprehensions / deepcopy do - checked by the "
+        "id() walk; harness.  Determinism and non-mutation are tested, not proved.",
+   technique="Coq proof over a cell-identity model of copying + id()-based object-graph walk and in-place mutation; hash-seed / shared-story differential",
+   design_ref="DESIGN.md §6 C16, §7"),
 }
 
 ALL = [f"C{i:02d}" for i in range(1, 21)]
